@@ -21,13 +21,22 @@ pub trait DtnTimeHelpers {
 impl DtnTimeHelpers for DtnTime {
     /// Convert to unix timestamp (in seconds).
     fn unix(self) -> u64 {
-        (self + MS1970_TO2K) / 1000
+        // divide first: `self + MS1970_TO2K` overflows for times near u64::MAX
+        self / 1000 + SECONDS1970_TO2K
     }
 
     /// Convert to human readable rfc3339 compliant time string.
+    ///
+    /// Times beyond 9999-12-31 cannot be expressed in rfc3339 and are printed as
+    /// milliseconds after the DTN epoch instead.
     fn string(self) -> String {
-        let d = UNIX_EPOCH + Duration::from_millis(self + MS1970_TO2K);
-        format_rfc3339(d).to_string()
+        use core::fmt::Write;
+        let d = UNIX_EPOCH + Duration::from_millis(self) + Duration::from_millis(MS1970_TO2K);
+        let mut s = String::new();
+        if write!(s, "{}", format_rfc3339(d)).is_err() {
+            return format!("{}ms after 2000-01-01T00:00:00Z", self);
+        }
+        s
     }
 }
 
